@@ -213,6 +213,9 @@ class SymFactory(object):
         from .sym import PI
         return PI
 
+    def sqrt(self, x):
+        return self.ip.sqrt(x)
+
     def eq_bool(self, a, b):
         from .sym import mk_eq
         return mk_eq(a, b)
@@ -450,6 +453,10 @@ class ConcFactory(object):
         import math
         return math.pi
 
+    def sqrt(self, x):
+        import math
+        return math.sqrt(x)
+
     def eq_bool(self, a, b):
         return bool(a) == bool(b)
 
@@ -472,3 +479,54 @@ class ConcFactory(object):
 
     def lam(self, src, **free):
         return eval(src, dict(free, np=np))
+
+
+class PrefixFactory(object):
+    """View of a factory that renames every symbol it creates (used to build a second, independent pre-state)."""
+
+    def __init__(self, f, prefix):
+        self._f = f
+        self._p = prefix
+
+    def __getattr__(self, name):
+        return getattr(self._f, name)
+
+    def real(self, name, *a, **k):
+        return self._f.real(self._p + name, *a, **k)
+
+    def int(self, name, *a, **k):
+        return self._f.int(self._p + name, *a, **k)
+
+    def bool(self, name):
+        return self._f.bool(self._p + name)
+
+    def array(self, name, *a, **k):
+        return self._f.array(self._p + name, *a, **k)
+
+    def opt(self, name, val):
+        return self._f.opt(self._p + name, val)
+
+    def enum_sym(self, name, *a, **k):
+        return self._f.enum_sym(self._p + name, *a, **k)
+
+    def ref(self, name):
+        return self._f.ref(self._p + name)
+
+    def file(self, name, value):
+        return self._f.file(self._p.replace('!', '_') + name, value)
+
+
+def history_builder(build, method, mutable, self_key='self'):
+    """Pre-state family 'the same object after an earlier call with other inputs and re-assignment of its public
+    attributes': catches results that depend on the object's history (stale caches, memoised masks)."""
+    def hbuild(f):
+        a1 = build(PrefixFactory(f, 'h!'))
+        obj = a1[self_key]
+        f.call(obj, method, **dict((k, v) for k, v in a1.items() if k != self_key and not k.startswith('_')))
+        a2 = build(f)
+        for attr in mutable:
+            f.setattr(obj, attr, f.getattr(a2[self_key], attr))
+        out = dict(a2)
+        out[self_key] = obj
+        return out
+    return hbuild
